@@ -202,6 +202,10 @@ HELPERS = [
     ("big", [], "long", [("ret", L("int", 100000))]),
     ("lsq", [("int", "n")], "long", [("decl", "long", "w", ("bin", "+", ("var", "n"), L("int", 99990))), ("assign", "w", ("bin", "*", ("var", "w"), ("var", "w"))),
                                      ("decl", "long", "u", L("int", 5)), ("assign", "u", ("bin", "+", ("var", "n"), L("int", 70000))), ("ret", ("bin", "+", ("var", "w"), ("bin", "*", ("var", "u"), ("var", "u"))))]),
+    # ... and so is the VALUE of an assignment into a long slot (variable or element), found by a round-9 seeding agent on the unchanged tree
+    ("lasg", [("int", "n")], "long", [("decl", "long", "w", L("int", 0)), ("ret", ("bin", "*", ("assignx", "w", ("bin", "+", ("var", "n"), L("int", 99990))), ("var", "w")))]),
+    ("laasg", [("int", "n")], "long", [("decl", "long[]", "v", ("arrlit", "long[]", [L("long", 0), L("long", 0)])),
+                                       ("ret", ("bin", "*", ("aassignx", "v", L("int", 1), ("bin", "+", ("var", "n"), L("int", 99990)), True), L("int", 100000)))]),
     ("half", [("int", "n")], "float", [("ret", ("bin", "/", ("var", "n"), L("int", 2)))]),
     ("wide", [("long", "n")], "long", [("ret", ("bin", "*", ("var", "n"), L("long", 3)))]),
 ]
@@ -251,6 +255,11 @@ ATOMS = [
     ("aassign", "a", L("int", 0), ("bin", "+", ("assignx", "x", L("int", 4)), L("int", 1))),
     ("assign", "y", ("bin", "*", ("aassignx", "a", X, Y, True), L("int", 2))),
     ("echo", ("assignx", "y", ("bin", "+", X, L("int", 1)))),
+    # ... whose value has the slot's type, and whose element writes survive an enclosing element assignment (round 9)
+    ("echo", ("call", "lasg", [X])),
+    ("echo", ("call", "laasg", [Y])),
+    ("aassign", "a", ("aassignx", "a", L("int", 0), L("int", 1), True), ("bin", "+", Y, L("int", 5))),
+    ("aassign", "a", L("int", 1), ("bin", "+", ("aassignx", "a", L("int", 2), X, True), ("aassignx", "a", L("int", 0), Y, True))),
 ]
 
 
